@@ -69,6 +69,17 @@ def run(tier="quick", seed=1, work=None, replay=None, focus="C10", ncases=None):
             # directory with content, dangling link, link to a directory outside, link to a file — with the fault on the
             # removal of each of them in turn; no filters, so that exit 0 must mean an exact mirror
             targeted = (ci % 3 == 1)
+            link_case = (ci == 0)
+            if link_case:
+                # explicit tree (C02; repo fix 0e87354): a destination symlink standing where the source has a directory and pointing back INTO
+                # the source's own directory; every removal call fails in turn.  Whatever fails, no entry under the source root may change.
+                flags = rng.pick([[], ["--delete", "--force-delete"]]) + ["-j", str(rng.pick([1, 4]))]
+                cfg = {"links": "p", "cmp": "d"}; excl = []; env = {}
+                if "--delete" in flags: cfg.update(delete=1, force=1)
+                src = {"d": D(), "d/a": F(rng.bytes(rng.range(1, 3000))), "d/sub": D(), "d/sub/b": F(rng.bytes(rng.range(1, 300))), "d/l": L("a"), "top": F(b"new top")}
+                dst = {"d": L("@SRC@/d"), "top": F(b"old")}
+                if rng.chance(1, 2): dst["stale"] = F(b"stale")
+                rep.tag("targeted.link-into-source-where-dir")
             if targeted:
                 flags = ["--delete", "--force-delete", "-j", str(rng.pick([1, 1, 4]))]; cfg = {"links": "p", "cmp": "d", "delete": 1, "force": 1}; excl = []; env = {}
                 opts = dict(opts, symlinks=True)
@@ -79,6 +90,14 @@ def run(tier="quick", seed=1, work=None, replay=None, focus="C10", ncases=None):
                                   ("zz-to-file", L("@OUT@/sentinel.txt")), ("zz-loop", L("zz-loop")), ("zz-dir", D()), ("zz-dir/inner", F(b"inner")),
                                   ("zz-dir/deadlink", L("gone"))):
                     if (pre + nm_) not in src: dst[pre + nm_] = node
+                # … and a destination SYMLINK standing where the source has a directory, pointing back into the source's own directory (what a
+                # preserve-mode run of the parent may have placed there): its replacement (unlink, then mkdir) is one of the removals that
+                # fail in turn; nothing below it may then be written — the path leads through the link into the SOURCE (C02; repo fix 0e87354)
+                sdirs = [r for r, n in src.items() if n["k"] == "d" and "/" not in r and any(x.startswith(r + "/") and src[x]["k"] == "f" for x in src)]
+                if sdirs:
+                    d_ = rng.pick(sdirs)
+                    for r in [r for r in dst if r == d_ or r.startswith(d_ + "/")]: del dst[r]
+                    dst[d_] = L("@SRC@/" + d_); rep.tag("targeted.link-into-source-where-dir")
                 rep.tag("targeted.delete-fault-matrix")
             pristine = os.path.join(work, f"p{ci}")
             subst = {"@SRC@": os.path.join(work, f"f{ci}", "src"), "@OUT@": os.path.join(work, f"f{ci}", "out")}
@@ -107,6 +126,8 @@ def run(tier="quick", seed=1, work=None, replay=None, focus="C10", ncases=None):
             # re-reads and the block comparisons of the delta path (seeded change C19b: a verification that could not be done)
             for _ in range(3 if tier == "quick" else 8):
                 if counts.get("read", 0) > 0: plan.append(("read", rng.range(1, counts["read"]), "EIO"))
+            if link_case:
+                plan = [(c, k, e_) for c in ("unlink", "unlinkat") for k in range(1, counts.get(c, 0) + 1) for e_ in ("EIO", "EACCES")][:24] + plan[:4]
             if targeted:
                 # every removal call of the fault-free run, each failing once with EIO (then the sampled plan)
                 plan = [(c, k, "EIO") for c in ("unlink", "unlinkat") for k in range(1, counts.get(c, 0) + 1)][:40] + plan[:4]
